@@ -2,6 +2,6 @@ SPECIFICATION Spec
 CONSTANTS
   CksTab <- TabGen
   Cases <- CasesT
-PROPERTIES AllOK
+PROPERTIES AllOK Pure
 ACTION_CONSTRAINT Row
 CHECK_DEADLOCK FALSE
